@@ -220,8 +220,11 @@ def make_trick_run(kind, plan, line_preempt=False):
                 return None if table.alive(self.pid) else 0
 
             def wait(self, timeout=None):
-                while table.alive(self.pid):
-                    time.sleep(TICK)
+                # Popen.wait(): one visible operation, enabled once the child is dead
+                p = table.procs[self.pid]
+                ends = [x for x in (p["dies"], p["killed"]) if x is not None]
+                dl = None if not ends else detsched._q(BASE + min(ends) / 1000.0)
+                sched.block("pred", lambda: not table.alive(self.pid), dl, f"Popen.wait {self.pid}")
                 return 0
 
         def fake_kill(pid, sig):
@@ -286,6 +289,15 @@ def make_trick_run(kind, plan, line_preempt=False):
         result = {"log": log, "failure": failure, "uncaught": list(sched.uncaught), "alive_end": table.alive_all(),
                   "procs": dict(table.procs), "schedule": [t[3] for t in sched.trace], "stuck": list(sched.stuck),
                   "end_clock": table.clock()}
+        if kind == "shell" and not line_preempt and len(plan["threads"]) == 1:
+            idx = {t.name: k for k, t in enumerate(sched.order)}
+            ms = lambda clk: int(round((clk - BASE) * 1000))
+            steps = " ".join(f"{ms(clk)}:{','.join(str(idx[n]) for n in en)}>{idx[ch]}" for _n, clk, en, ch, _l in sched.trace)
+            hist = " ".join(re.sub(r"^(spawn|kill):(\d+)", lambda m: f"{m.group(1)}:{int(m.group(2)) - 1000}", e) for e in log)
+            alldone = failure is None and all(t.status == "done" for t in sched.order)
+            result["line"] = (f"{steps} | {hist} | alive=[{','.join(str(p - 1000) for p in table.alive_all())}] "
+                              f"threads={len(sched.order)} done={int(alldone)} clock={ms(sched.clock)}")
+            result["sched_idx"] = [idx[t[3]] for t in sched.trace]
         if kind == "restart" and not line_preempt:
             # the same run in the vocabulary of WD.Rst: threads by creation order, pids from 0, times in ms
             idx = {t.name: k for k, t in enumerate(sched.order)}
@@ -311,6 +323,17 @@ def rst_request(plan, schedule):
     for ops in plan["threads"]:
         toks.append(str(len(ops)))
         toks += [f"s{ms(op[1])}" if op[0] == "sleep" else op[0] for op in ops]
+    toks += [f"S {len(schedule)}"] + [str(x) for x in schedule]
+    return " ".join(toks)
+
+
+def shell_request(plan, schedule):
+    ms = lambda ticks_: int(round(ticks_ * TICK * 1000))
+    lifes = plan.get("lifetimes", [])
+    ops = plan["threads"][0]
+    toks = [f"shell {int(plan.get('wait', False))} {int(plan.get('drop', False))} L {len(lifes)}"]
+    toks += ["-" if x is None else str(ms(x)) for x in lifes]
+    toks += [f"T {len(ops)}"] + [f"s{ms(op[1])}" if op[0] == "sleep" else op[0] for op in ops]
     toks += [f"S {len(schedule)}"] + [str(x) for x in schedule]
     return " ".join(toks)
 
@@ -440,6 +463,13 @@ def run(res, tier, lean, proof_breaks=(), build_log=""):
         plans.append(("restart", {"lifetimes": [r.choice([None, None, 2, 4, 8]) for _k in range(8)],
                                   "debounce": r.choice([0, 0, 2, 4]), "kill_delay": r.choice([0, 0, 2, 3, 12]),
                                   "restart_on_exit": r.random() < 0.85, "threads": threads, "random": True}))
+    for _ in range(30 if thorough else 10):
+        ops = []
+        for _k in range(r.randint(2, 6)):
+            ops.append(r.choice([("event",), ("event",), ("sleep", r.choice([0, 1, 2, 3, 4, 8]))]))
+        w, d = r.choice([(True, False), (False, True), (True, True), (False, False)])
+        plans.append(("shell", {"lifetimes": [r.choice([1, 2, 3, 4, 8]) for _k in range(8)], "wait": w, "drop": d,
+                                "threads": [ops + [("sleep", 10)]], "random": True}))
     rlines, rimpl, rmeta = [], [], []
     for kind, plan in plans:
         run_one = make_trick_run(kind, plan)
@@ -450,7 +480,7 @@ def run(res, tier, lean, proof_breaks=(), build_log=""):
             runs = list(explore.dfs(run_one, 2, 600 if thorough else 150, info)) + list(explore.random_runs(run_one, r, 100 if thorough else 30))
         for sched, result in runs:
             if "line" in result:
-                rlines.append(rst_request(plan, result["sched_idx"]))
+                rlines.append((rst_request if kind == "restart" else shell_request)(plan, result["sched_idx"]))
                 rimpl.append(result["line"])
                 rmeta.append((plan, result))
         # line-level preemption: interleavings inside the tricks' own (lock-free) check-then-act sequences
@@ -467,17 +497,21 @@ def run(res, tier, lean, proof_breaks=(), build_log=""):
     # tie of WD.Rst: every run explored without line-level preemption is replayed in the model on the same schedule
     routs = lean.run(rlines) if rlines else []
     rbad = [(l, i, o, plan) for l, i, o, (plan, _res) in zip(rlines, rimpl, routs, rmeta) if i != o]
+    res.cov["shell_runs_replayed_in_model"] = sum(1 for l in rlines if l.startswith("shell"))
     res.cov["restart_runs_replayed_in_model"] = len(rlines)
     if rlines:
         res.sample({"request": rlines[0], "implementation": rimpl[0], "model": routs[0]})
-    if rbad and not any(k == "restart" for k, *_ in tjudged):
-        rbad.sort(key=lambda b: len(b[0]))
-        l, i, o, plan = rbad[0]
-        res.violation("correspondence WD.Rst <-> AutoRestartTrick broken (theorems C18.one_child_at_a_time etc. no longer tied "
-                      "to the code); every explored run (schedules within the preemption bound, random, line-level preemption) "
-                      "was judged against the property's trace predicates and none failed",
-                      {"correspondence": "harness/c18.py vs lean WD.Rst", "plan": plan, "request": l, "implementation": i,
-                       "model": o, "mismatching_runs": len(rbad)}, no_input=True, signature="c18-rst-model-mismatch")
+    for which, pref, name in (("restart", "rst", "WD.Rst <-> AutoRestartTrick"), ("shell", "shell", "WD.Shell <-> ShellCommandTrick")):
+        mine = [b for b in rbad if b[0].startswith(pref + " ")]
+        if mine and not any(k == which for k, *_ in tjudged):
+            mine.sort(key=lambda b: len(b[0]))
+            l, i, o, plan = mine[0]
+            res.violation(f"correspondence {name} broken (the C18 theorems about it are no longer tied to the code); every "
+                          "explored run (schedules within the preemption bound, random, line-level preemption) was judged "
+                          "against the property's trace predicates and none failed",
+                          {"correspondence": f"harness/c18.py vs lean {name.split(' ')[0]}", "plan": plan, "request": l,
+                           "implementation": i, "model": o, "mismatching_runs": len(mine)}, no_input=True,
+                          signature=f"c18-{pref}-model-mismatch")
     if bad and not judged:
         # correspondence broken, no explored run violated the property: search on the real code with the judge as oracle
         searched = 0
